@@ -43,6 +43,8 @@ struct Log {
     /// zero-sized tokens (no identity: counted only) constructed / destructed in this run
     z_made: u64,
     z_dropped: u64,
+    /// RefLock write guards the client leaked in this run (Op::LeakGuard)
+    leaked_guards: u32,
 }
 
 static mut LOG: Option<Log> = None;
@@ -51,7 +53,7 @@ fn log() -> &'static mut Log {
     unsafe {
         if LOG.is_none() {
             let _p = seam::pause();
-            LOG = Some(Log { counts: vec![], events: vec![], ticks: 0, armed: vec![], fired: 0, trace_sites: vec![], record_sites: false, protected: vec![], drop_fault_in: None, drop_faulted: vec![], garbage: vec![], z_made: 0, z_dropped: 0 });
+            LOG = Some(Log { counts: vec![], events: vec![], ticks: 0, armed: vec![], fired: 0, trace_sites: vec![], record_sites: false, protected: vec![], drop_fault_in: None, drop_faulted: vec![], garbage: vec![], z_made: 0, z_dropped: 0, leaked_guards: 0 });
         }
         LOG.as_mut().unwrap()
     }
@@ -73,6 +75,24 @@ pub fn begin_run() {
     l.garbage.clear();
     l.z_made = 0;
     l.z_dropped = 0;
+    l.leaked_guards = 0;
+}
+
+/// The client leaked the write guard of a RefLock: from now on a trace of that lock panics with a
+/// BorrowError, which is a fault the *client* injected (a panic out of a `Collect::trace`), not one
+/// the crate is to blame for.
+pub fn note_leaked_guard() {
+    log().leaked_guards += 1;
+}
+pub fn leaked_guards() -> u32 {
+    log().leaked_guards
+}
+/// Is this panic message the BorrowError of a leaked guard (only ever true in a run that leaked one)?
+pub fn is_leaked_guard_panic(msg: &str) -> bool {
+    log().leaked_guards > 0 && msg.contains("mutably borrowed")
+}
+pub fn note_fault_fired() {
+    log().fired += 1;
 }
 
 /// A value whose destruction is observable. Every payload with a destructor carries one.
@@ -265,6 +285,10 @@ pub fn install_panic_hook() {
             return;
         }
         if QUIET.with(|q| q.get()) {
+            return;
+        }
+        let msg = p.downcast_ref::<&'static str>().map(|s| s.to_string()).or_else(|| p.downcast_ref::<String>().cloned()).unwrap_or_default();
+        if is_leaked_guard_panic(&msg) {
             return;
         }
         default(info);
